@@ -24,8 +24,53 @@ fn plain_did_ok(s: &str) -> Result<(), String> {
   }
 }
 
+/// W3C DID syntax, written independently of the code:  method-specific-id = *( *idchar ":" ) 1*idchar,
+/// idchar = ALPHA / DIGIT / "." / "-" / "_" / pct-encoded, pct-encoded = "%" HEXDIG HEXDIG.
+/// (the crate deliberately also admits empty idchar runs - "a::b", a trailing ':' - which is not part of this check)
+fn w3c_idchars(s: &str) -> bool {
+  let b: Vec<char> = s.chars().collect();
+  let mut i = 0;
+  while i < b.len() {
+    let c = b[i];
+    if c == '%' {
+      if i + 2 >= b.len() { return false; }
+      if !(b[i + 1].is_ascii_hexdigit() && b[i + 2].is_ascii_hexdigit()) { return false; }
+      i += 3;
+    } else if c.is_ascii_alphanumeric() || c == '.' || c == '-' || c == '_' || c == ':' { i += 1; } else { return false; }
+  }
+  true
+}
+/// D13: every method id over an adversarial alphabet up to 5 characters, against the grammar
+fn method_id_grammar_small_scope() -> Result<(), String> {
+  let alphabet = ['a', 'F', 'g', '0', '9', '%', '+', '-', ':', '.', '_', ' ', 'é', '/', '#'];
+  let mut cur: Vec<usize> = vec![];
+  let mut count = 0u32;
+  loop {
+    // next string in length-lexicographic order
+    let mut k = cur.len();
+    loop {
+      if k == 0 { cur = vec![0; cur.len() + 1]; break; }
+      k -= 1;
+      if cur[k] + 1 < alphabet.len() { cur[k] += 1; for j in k + 1..cur.len() { cur[j] = 0; } break; }
+    }
+    if cur.len() > 5 { break; }
+    let s: String = cur.iter().map(|&i| alphabet[i]).collect();
+    let got = CoreDID::valid_method_id(&s).is_ok();
+    if got != w3c_idchars(&s) { return Err(format!("valid_method_id({s:?}) = {got}, the W3C grammar says {}", !got)); }
+    count += 1;
+  }
+  if count < 800_000 { return Err(format!("only {count} strings enumerated")); }
+  // and through the public entry points: accepted => the method id is grammatical (D5's inputs excluded: they panic in the dependency)
+  for s in ["did:example:%+fabc", "did:example:a%+1b", "did:example:a%-1b", "did:example:a% 1b", "did:example:a%1", "did:example:a%é1b"] {
+    if let Ok(d) = CoreDID::parse(s) { if !w3c_idchars(d.method_id()) { return Err(format!("CoreDID::parse accepts {s:?} with method id {:?}", d.method_id())); } }
+    if let Ok(d) = DIDUrl::parse(s) { if !w3c_idchars(d.did().method_id()) { return Err(format!("DIDUrl::parse accepts {s:?}")); } }
+  }
+  Ok(())
+}
+
 fn main() {
   std::panic::set_hook(Box::new(|_| {}));
+  w("did_method_id_grammar_small_scope", method_id_grammar_small_scope);
   w("did_plain_did_with_url_parts", || { for s in ["did:example:123#frag", "did:example:123/path?q=1", "did:example:123?q=1", "did:example:123/p", "did:example:123#", "did:example:123?", "did:example:123/"] { plain_did_ok(s)?; } Ok(()) });
   w("did_plain_did_with_whitespace", || { for s in [" did:example:123", "did:example:123 ", "did:example:%41/x", "did:example:%41 x"] { plain_did_ok(s)?; } Ok(()) });
   w("did_trailing_percent_triple", || { for s in ["did:example:%41", "did:example:%+f", "did:example:abc%7e"] { plain_did_ok(s)?; } Ok(()) });
